@@ -204,7 +204,8 @@ class RunDir:
 
     def __init__(self, tag="r"):
         _run_counter[0] += 1
-        self.base = os.path.join(SHM, "%s_%d_%d" % (tag, os.getpid(), _run_counter[0]))
+        # fixed width: report sizes (and so the number of cut offsets in C10) must not depend on the pid
+        self.base = os.path.join(SHM, "%s_%07d_%05d" % (tag, os.getpid(), _run_counter[0]))
         if os.path.exists(self.base):
             shutil.rmtree(self.base, ignore_errors=True)
         self.world = os.path.join(self.base, "w")
